@@ -13,6 +13,8 @@ use crate::rng::Rng;
 #[derive(Clone, Debug, PartialEq)]
 pub enum Kind {
     Unknown,
+    /// accepts (like Ok) data whose first byte is even, answers Custom for the rest: a validating hasher
+    Validating(Vec<u8>),
     Ok(Vec<u8>),
     Custom,
     Fatal,
@@ -31,7 +33,14 @@ impl ScriptHasher {
     pub fn answer(&self, code: u64, input: &[u8]) -> Kind {
         for (c, k) in &self.answers {
             if *c == code {
-                return match k {
+                let k = match k {
+                    Kind::Validating(d) => {
+                        if input.first().copied().unwrap_or(0) % 2 == 1 { &Kind::Custom } else { &Kind::Ok(d.clone()) }
+                    }
+                    k => k,
+                };
+                let k: Kind = k.clone();
+                return match &k {
                     // make the digest depend on the data so that wrong data is distinguishable
                     Kind::Ok(d) => {
                         let mut d = d.clone();
@@ -75,6 +84,7 @@ impl<const S: usize> Multihasher<S> for ScriptHasher {
         self.log.lock().unwrap().push(self.id);
         match self.answer(code, input) {
             Kind::Unknown => Err(MultihasherError::UnknownMultihashCode),
+            Kind::Validating(_) => unreachable!("answer() resolves Validating"),
             Kind::Ok(d) => Multihash::wrap(code, &d).map_err(|_| MultihasherError::InvalidMultihashSize),
             Kind::Custom => Err(MultihasherError::custom("scripted")),
             Kind::Fatal => Err(MultihasherError::custom_fatal("scripted")),
@@ -86,6 +96,7 @@ impl<const S: usize> Multihasher<S> for ScriptHasher {
 pub fn kind_j(k: &Kind, code: u64) -> J {
     match k {
         Kind::Unknown => J::c0("KUnknown"),
+        Kind::Validating(_) => unreachable!("answer() resolves Validating"),
         Kind::Ok(d) => J::C("KOk", vec![J::C("MkMh", vec![J::n(code), J::bytes(d)])]),
         Kind::Custom => J::c0("KCustom"),
         Kind::Fatal => J::c0("KFatal"),
